@@ -1136,6 +1136,7 @@ class LinkAccessor(WritableAccessor[T_co], PhysicalAccessor[T_co]):
                 parent = ref.getparent()
                 if parent is None:
                     continue
+                obj._model._loader.idcache_remove(ref)
                 parent.remove(ref)
             except Exception:
                 LOGGER.exception("Cannot purge dangling ref object %r", ref)
